@@ -56,6 +56,8 @@ type Unit struct {
 	externalCalls map[string]bool
 	specErrors []string
 	deferList []*ast.CallExpr
+	goScan    int // 0 not scanned, 1 no go statement, 2 has go statement
+	spawned   []func(*State) // re-havoc of the modifies targets of spawned goroutines (see resync)
 	deferGuards []int
 	retCount  int
 	endPos    token.Pos
@@ -1064,6 +1066,7 @@ func (u *Unit) evalUnary(st *State, e *ast.UnaryExpr) Term {
 	case token.ARROW:
 		u.eval(st, e.X)
 		u.unsupportedf(e.Pos(), "channel receive modelled as an arbitrary value")
+		u.resync(st)
 		t := u.typeOf(e)
 		if tup, ok := t.(*types.Tuple); ok {
 			return Term{Tuple: []Term{u.freshOf(st, tup.At(0).Type(), "recv"), u.freshOf(st, tup.At(1).Type(), "recvok")}}
@@ -1135,12 +1138,17 @@ func (u *Unit) evalBinary(st *State, e *ast.BinaryExpr) Term {
 			g = not(a.S)
 		}
 		st.pc = append(st.pc, g)
+		allocBefore := st.alloc
 		b := u.eval(st, e.Y)
 		// re-guard assumptions made while evaluating the right operand
 		extra := append([]string(nil), st.pc[n+1:]...)
 		st.pc = st.pc[:n]
 		for _, x := range extra {
 			st.assume(implies(g, x))
+		}
+		if st.alloc != allocBefore {
+			// the allocation counter only grows, also on the path that skips the right operand
+			st.assume("(>= " + st.alloc + " " + allocBefore + ")")
 		}
 		if e.Op == token.LAND {
 			return Term{S: and(a.S, b.S), T: u.typeOf(e)}
